@@ -29,8 +29,8 @@ def run(tier):
                 J("tv_quick", 240, 4, "one path = (position, container context, type shape)", dict(grammar=H.TG_STUB1.describe(), positions=H.Q_POS, contexts=H.Q_CTX,
                                                                                             extra_classes=[c.__module__ + "." + c.__qualname__ for c in H.EXTRA_CLASSES]))]
     else:
-        jobs = [J("collide3", 600, 1, "one path = (module name pair, placements, contexts)", dict(module_names=H.NAMES3, placements=H.PLACEMENTS, contexts=H.CONTEXTS)),
-                J("collide4", 3000, 1, "one path = (module name pair, placements, contexts)", dict(module_names="all %d dotted identifiers over {a,b,.} of length <= 4" % len(H.NAMES4))),
-                J("tv_full1", 900, 4, "one path = (position, container context, type shape)", dict(grammar=H.TG_STUB1.describe(), positions=H.POSITIONS, contexts=H.HOST_CONTAINERS)),
-                J("tv_deep", 2400, 5, "one path = (position, container context, type shape)", dict(grammar=H.TG_STUB.describe(), positions=H.POSITIONS, contexts=H.HOST_CONTAINERS))]
+        jobs = [J("collide3", 400, 1, "one path = (module name pair, placements, contexts)", dict(module_names=H.NAMES3, placements=H.PLACEMENTS, contexts=H.CONTEXTS)),
+                J("collide4", 600, 1, "one path = (module name pair, placements, contexts)", dict(module_names="all %d dotted identifiers over {a,b,.} of length <= 4" % len(H.NAMES4))),
+                J("tv_full1", 400, 4, "one path = (position, container context, type shape)", dict(grammar=H.TG_STUB1.describe(), positions=H.POSITIONS, contexts=H.HOST_CONTAINERS)),
+                J("tv_deep", 400, 5, "one path = (position, container context, type shape)", dict(grammar=H.TG_STUB.describe(), positions=H.POSITIONS, contexts=H.HOST_CONTAINERS))]
     return run_check(PID, tier, jobs, H.FUNCTIONS, ASSUMPTIONS, level_if_exhausted="translation_validation" if False else "model_checking")
